@@ -7,6 +7,7 @@ package refhd
 import (
 	"errors"
 	"math/big"
+	"sync"
 )
 
 var (
@@ -169,8 +170,43 @@ func Mul(k *big.Int, p Point) Point {
 	return acc.affine()
 }
 
-// BaseMul returns k*G.
-func BaseMul(k *big.Int) Point { return Mul(k, G()) }
+// BaseMul returns k*G. It uses a table of j*16^i*G (i<64, 0<j<16) built once with the plain
+// routines above, so that a multiplication is at most 64 point additions and no doubling.
+// Calibrate cross-checks it against the plain double-and-add Mul.
+func BaseMul(k *big.Int) Point {
+	gTableOnce.Do(buildGTable)
+	k = new(big.Int).Mod(k, CurveN)
+	acc := jac{big.NewInt(1), big.NewInt(1), big.NewInt(0)}
+	kb := pad32(k)
+	for i := 0; i < 64; i++ {
+		b := kb[31-i/2]
+		nib := b & 15
+		if i%2 == 1 {
+			nib = b >> 4
+		}
+		if nib != 0 {
+			acc = acc.add(gTable[i][nib])
+		}
+	}
+	return acc.affine()
+}
+
+var (
+	gTable     [64][16]jac
+	gTableOnce sync.Once
+)
+
+func buildGTable() {
+	base := toJac(G())
+	for i := 0; i < 64; i++ {
+		cur := base
+		for j := 1; j < 16; j++ {
+			gTable[i][j] = toJac(cur.affine()) // z = 1 keeps later additions cheap and uniform
+			cur = cur.add(base)
+		}
+		base = cur // 16 * previous base
+	}
+}
 
 func pad32(x *big.Int) []byte {
 	b := x.Bytes()
